@@ -25,7 +25,7 @@ def RULE(tier):
     return ("real Doist(real=True).do() with one scripted doer for %d cycles; tock set at construction or assigned before do() (5 "
             "configurations); every execution with <= %d deviations among: real time consumed by a recur in {0, T/2, 3T/2, 5T/2}, sleep "
             "overshoot in {0, T/4, T, 5T/2}, backward system-clock step in {0, T/2, 3T, 1/2048 s} at any clock read (incl. a 'stall' equal to the "
-            "time just slept), real time passing between construction and do() in {0, T/4, 3T/2}. Oracle: cycle k starts at true elapsed time >= k*T (T = doist.tock when do() is called); without clock "
+            "time just slept), real time passing between construction and do() in {0, T/4, 3T/2}. Oracle: cycle k starts at true elapsed time >= k*T (T = doist.tock when do() is called, also when a doer lowers doist.tock during the run); without clock "
             "steps the start of cycle k equals max(ready_k, t0 + k*T + overshoot) (lossless pacing model); with steps the same with each "
             "deadline moved by exactly the real time the steps so far can hide from a timer that compares consecutive readings." % (4 if tier == "quick" else 5, BOUND(tier)))
 
@@ -110,6 +110,8 @@ def harness(job, ch):
                 c = [0.0, T / 2, 1.5 * T, 2.5 * T][ch.choose(4, "consume")]
                 clk.consume(c)
                 consumed.append(c)
+                if ch.choose(2, "retock"):      # the tock is lowered while the run is going: the pace stays the one of the run's start
+                    d.tock = Trun / 2
                 return len(starts) > ncycles
 
         d = doing.Doist(real=True, tock=t0arg, doers=[Work()]) if t0arg is not None else doing.Doist(real=True, doers=[Work()])
